@@ -203,13 +203,17 @@ void Symmetrizer::compute(bool ignore_symmetries)
         for (ParticleIndex i=0; i<IndexSize && valid_sz; ++i)
             valid_sz = valid_sz && (IndexInfo.getInfo(i).Spin == up || IndexInfo.getInfo(i).Spin == down);
         if (valid_sz) {
-            std::vector<ParticleIndex> SpinUpIndices;
+            std::vector<ParticleIndex> SpinUpIndices, SpinDownIndices;
             for (ParticleIndex i=0; i<IndexSize; ++i) {
                 unsigned short Spin = IndexInfo.getInfo(i).Spin;
                 if ( Spin == up ) SpinUpIndices.push_back(i);
+                else SpinDownIndices.push_back(i);
             }
-            Operator op_sz = Pomerol::OperatorPresets::Sz(IndexSize, SpinUpIndices);
-            if (this->checkSymmetry(op_sz)) INFO("[ H ," << op_sz << " ]=0");
+            // S_z is defined only for equal numbers of up and down indices (no spinless sites)
+            if (SpinUpIndices.size() == SpinDownIndices.size()) {
+                Operator op_sz = Pomerol::OperatorPresets::Sz(SpinUpIndices, SpinDownIndices);
+                if (this->checkSymmetry(op_sz)) INFO("[ H ," << op_sz << " ]=0");
+            }
         };
     };
 
